@@ -36,6 +36,10 @@ HAND = [
      leaf("E", omitzero=True, kind="slice"), leaf("F", omitempty=True)],
     [leaf("A", "k", casing=1), leaf("B", "\u03c3"), leaf("C", "\u01c5", casing=2), leaf("D", "\u03c2", casing=1)],                  # folding beyond ASCII
     [leaf("A", "\u212a"), leaf("B", "K", casing=1), leaf("C", "s"), leaf("D", "\u017f")],
+    # three and four levels of embedding, several fields innermost (index paths of length 4 and 5)
+    [embed("E1", [embed("E2", [embed("E3", [leaf("X"), leaf("Y"), leaf("Z")])])]), leaf("W")],
+    [embed("E1", [embed("E2", [embed("E3", [embed("E4", [leaf("X"), leaf("Y", kind="str")]), leaf("V")], ptr=True)])], ptr=True)],
+    [embed("E1", [leaf("A"), embed("E2", [leaf("B"), embed("E3", [leaf("C"), leaf("D"), leaf("A", "a")])])])],
     # one struct type reached twice at the same depth, with embedded structs of its own (diamond)
     [embed("L", [embed("M", [embed("Lf", [leaf("Y")]), leaf("X")])]), embed("R", [embed("M", [embed("Lf", [leaf("Y")]), leaf("X")])])],
     [embed("M1", [embed("Lf", [leaf("Y")]), leaf("X")]), embed("M2", [embed("Lf", [leaf("Y")]), leaf("X")]), leaf("Z")],
@@ -62,7 +66,7 @@ def random_types(seed, n):
         names = set()
         fields = []
         for _ in range(r.randint(1, 3)):
-            if depth < 3 and r.random() < 0.4:
+            if depth < 3 and r.random() < 0.4 or depth in (3, 4) and r.random() < 0.25:
                 eidx[0] += 1
                 go = "E%d" % eidx[0]
                 fields.append(embed(go, mkstruct(depth + 1, eidx), ptr=r.random() < 0.3))
